@@ -351,20 +351,20 @@ NEWTON_GHOST_ASSIGNS = "SPL_N_FUNC, SPL_N_AT, SPL_N_DELTA, SPL_N_DELTA0"
 NEWTON_PARAMS = "double factor, double irec_distance, double m_slope_exp, double m_tolerance, double inode_elevation, double irec_elevation_next, double eq_num"
 NEWTON_CALL = "{ eq_num = spl_newton_branch(factor, irec_distance, m_slope_exp, m_tolerance, inode_elevation, irec_elevation_next, eq_num); }"
 
-NEWTON_RULES = LOCALS + [
-    # ghost capture of the value the loop tests against the tolerance (whatever expression that is)
-    V(r"if \(((?:[^()]|\([^()]*\))*?) <= m_tolerance\)",
-      r"FSL_GHOST(SPL_N_FUNC = (\1); SPL_N_AT = delta_k;) if ((\1) <= m_tolerance)"),
-]
+NEWTON_RULES = [
+    # ghost capture of the residual the loop tests against the tolerance, at the point where it is computed
+    R(r"(auto func = [^;]*;)", r"\1 FSL_GHOST(SPL_N_FUNC = func; SPL_N_AT = delta_k;)", 1),
+] + LOCALS
 
 NEWTON_LEMMAS = {
     # C13 newton_exit, from the property: "within the configured Newton tolerance" = |residual| <= tolerance at a
     # normal exit (the loop is also left when the drop reaches 0: erosion limited)
     "exit": dict(
-        requires="",
+        requires="__CPROVER_requires(!isnan(m_tolerance))   /* the configured tolerance is a number */\n",
         invariant="__CPROVER_loop_invariant(1 == 1)\n",
-        ensures="__CPROVER_ensures(SPL_N_DELTA <= 0 || (SAME_D(SPL_N_AT, SPL_N_DELTA) && SPL_N_FUNC <= m_tolerance))   /* C13 newton_exit: residual <= tolerance at the returned drop */\n"
-                "__CPROVER_ensures(SPL_N_DELTA <= 0 || SPL_N_FUNC >= -m_tolerance)   /* C13 newton_exit: residual >= -tolerance (|residual| within the tolerance) */\n"),
+        # NaN residual / drop = non-finite operands (extreme K dt products): outside this clause, known finding F12
+        ensures="__CPROVER_ensures(isnan(SPL_N_FUNC) || isnan(SPL_N_DELTA) || SPL_N_DELTA <= 0 || (SAME_D(SPL_N_AT, SPL_N_DELTA) && SPL_N_FUNC <= m_tolerance))   /* C13 newton_exit: residual <= tolerance at the returned drop */\n"
+                "__CPROVER_ensures(isnan(SPL_N_FUNC) || isnan(SPL_N_DELTA) || SPL_N_DELTA <= 0 || SPL_N_FUNC >= -m_tolerance)   /* C13 newton_exit: residual >= -tolerance (|residual| within the tolerance) */\n"),
     # u = h - (delta_0 - delta), delta_0 = h - h'_r
     "shape": dict(
         requires="",
